@@ -106,7 +106,16 @@ func registerAPIModels() {
 	apiModels["verifChoose"] = func(it *Interp, fr *frame, fn *ssa.Function, args []Value) Value {
 		name := argStr(args[0])
 		n := int(it.concreteInt(args[1], "verifChoose n"))
-		j := it.ex.chooseFree("choose:"+name, n)
+		var j int
+		if v, ok := it.params["fix."+name]; ok {
+			// sharding: this run explores one value of the choice only
+			j, _ = strconv.Atoi(v)
+			if j < 0 || j >= n {
+				panic(pathEnd{"fixed choice out of range"})
+			}
+		} else {
+			j = it.ex.chooseFree("choose:"+name, n)
+		}
 		it.ex.nondets = append(it.ex.nondets, nondetRec{Name: name, Kind: "choose", conc: int64(j), useConc: true})
 		return mkBV(64, uint64(j))
 	}
